@@ -77,7 +77,9 @@ def pick_thresholds(rng):
 
 def rain_value(rng, cls, s):
     if cls == "dry":
-        return 0.0
+        # no rain: zero, and now and then what weighing gauges and regridded products report for "none":
+        # a negative zero, a negative trace (evaporation from the bucket, interpolation undershoot)
+        return 0.0 if rng.random() < 0.9 else rng.choice([-0.0, -2.5e-9, -1e-4, -0.05])
     if cls == "light":
         return s * rng.choice([0.125, 0.25, 0.5, 0.75])
     if cls == "at":
